@@ -40,7 +40,7 @@ PLAN = {
 }
 # runs per workload by kind (measured cost per run on this machine: kk_cnls 10 ms, zhit 63, fit 110, bht 155,
 # lm 437, mrq 550, kk_ext 615, kk_de 662): about 30 s of work per workload in the quick tier
-VARIANTS = {"fit": 250, "zhit": 400, "kk_cnls": 800, "bht": 200, "lm": 70, "mrq": 55, "kk_ext": 50, "kk_de": 45}
+VARIANTS = {"fit": 250, "zhit": 400, "kk_cnls": 800, "bht": 200, "lm": 70, "mrq": 55, "kk_ext": 40, "kk_de": 40}
 
 
 def variants_for(wl, tier):
@@ -52,7 +52,7 @@ def workload_meta(wl):
     return {"kind": wl.get("kind")}
 
 KIND_WEIGHTS = {
-    "quick": [("fit", 34), ("zhit", 32), ("kk_ext", 9), ("kk_cnls", 12), ("bht", 5), ("mrq", 3), ("kk_de", 2), ("lm", 3)],
+    "quick": [("fit", 32), ("zhit", 30), ("kk_ext", 13), ("kk_cnls", 12), ("bht", 5), ("mrq", 3), ("kk_de", 2), ("lm", 3)],
     "thorough": [("fit", 30), ("zhit", 28), ("kk_ext", 15), ("kk_cnls", 12), ("bht", 5), ("mrq", 4), ("kk_de", 3), ("lm", 3)],
 }
 
